@@ -381,6 +381,11 @@ def plan(ctx: Ctx, n: int) -> List[dict]:
     """forced coverage first (every system option with and without lattice block), then free draws"""
     opts = [None] + tvdata.SYSTEMS
     forced = [{"system": s, "lattice": lat} for lat in (False, True) for s in opts]
+    # every third forced case with a symmetry system carries redundant, slightly inconsistent components; every fourth has
+    # its static table on its own volume mesh
+    for i, f in enumerate(forced):
+        if f["system"] not in (None, "triclinic") and i % 3 == 0: f["redundant"] = "noisy"
+        if i % 4 == 1: f["static_mesh"] = "shifted"
     out = forced[:n]
     while len(out) < n:
         out.append({})
